@@ -272,8 +272,10 @@ def check_out_of_place(idx: Index, rep: Report, an: Analyzer):
     allowed = [("_cmeasure_control",)]
     for ref, params in OUT_OF_PLACE:
         f = idx.function(ref)
+        returns_circuit = f.name in ("__add__", "__mul__", "__rmul__", "copy", "inverse", "stack", "remove_small_rotations", "merge_rotations",
+                                     "remove_redundant_gates", "simplify", "trim_trivial_circuit")
         check_purity(idx, rep, an, f, params, {p: allowed for p in params}, rule="K1.outofplace", self_class=f.cls,
-                     what="out-of-place transformation leaves its input unchanged")
+                     what="out-of-place transformation leaves its input unchanged", fresh_result=returns_circuit)
     rep.floor("out-of-place entry points", len(OUT_OF_PLACE), 24)
 
 
